@@ -132,6 +132,7 @@ func c07(r *Run) {
 	r.Exhaustive = true
 	runEsc(r, forms, byteInputs(r, r.Thorough(), r.N(1000, 50000), []byte("\"\\\n\r\t\b\f<'\x00\x01\x1f/u")), judge, second)
 	runEsc(r, forms, runeInputs(r, r.N(2000, 100000)), judge, second)
+	regionRel(r, "jsonquote", "json", r.N(1500, 60000))
 }
 
 func attrExpected(in []byte) []byte {
@@ -196,6 +197,7 @@ func c08(r *Run) {
 	r.Exhaustive = true
 	runEsc(r, forms, byteInputs(r, false, r.N(1000, 50000), []byte("<>\"'&;#x")), judge, second)
 	runEsc(r, forms, runeInputs(r, r.N(2000, 100000)), judge, second)
+	regionRel(r, "htmlescape", "html", r.N(1500, 60000))
 }
 
 func natsOf(s string) ([]int, bool) {
